@@ -8,7 +8,7 @@ LEVEL = "proof"
 def run(run):
     rng = run.rng
     run.do_ties()
-    quick = run.tier == "quick"
+    quick = run.quick
     n = 4000 if quick else 400000
     half = math.pi / 2
     grid = sorted(set([-half, half, 0.0, -0.0] + [half - 10.0 ** -k for k in range(1, 16)] + [-(half - 10.0 ** -k) for k in range(1, 16)]
